@@ -101,20 +101,7 @@ func Report(cx *Ctx, pr *PropResult, wall time.Duration) int {
 	nOK, nBad, nKnown, nInfo := 0, 0, 0, 0
 	distinct := map[string]bool{}
 	var samples []interface{}
-	sort.SliceStable(pr.Obs, func(i, j int) bool { return pr.Obs[i].Key < pr.Obs[j].Key })
-	// keys are rule + construct; several instances of one construct in one function get an ordinal (source order)
-	cnt := map[string]int{}
-	for _, o := range pr.Obs {
-		cnt[o.Key]++
-	}
-	seenKey := map[string]int{}
-	for i := range pr.Obs {
-		k := pr.Obs[i].Key
-		if cnt[k] > 1 {
-			seenKey[k]++
-			pr.Obs[i].Key = fmt.Sprintf("%s#%d", k, seenKey[k])
-		}
-	}
+	finalizeKeys(pr.Obs)
 	for _, o := range pr.Obs {
 		switch o.Status {
 		case OK:
@@ -199,4 +186,22 @@ func Report(cx *Ctx, pr *PropResult, wall time.Duration) int {
 		os.WriteFile(filepath.Join(vd, "evidence", pr.ID+".json"), b, 0o644)
 	}
 	return nBad
+}
+
+// finalizeKeys sorts the obligations and gives several instances of one construct in one function an ordinal
+// (source order): keys are rule + construct, never line numbers.
+func finalizeKeys(obs []Obligation) {
+	sort.SliceStable(obs, func(i, j int) bool { return obs[i].Key < obs[j].Key })
+	cnt := map[string]int{}
+	for _, o := range obs {
+		cnt[o.Key]++
+	}
+	seen := map[string]int{}
+	for i := range obs {
+		k := obs[i].Key
+		if cnt[k] > 1 {
+			seen[k]++
+			obs[i].Key = fmt.Sprintf("%s#%d", k, seen[k])
+		}
+	}
 }
